@@ -264,6 +264,8 @@ func runC04(w *World, r *Report) {
 	r.Rule("exhaust", "list-decoding loops run while any element can remain", 6)
 	r.Rule("keepall", "an element consumed by a list loop is stored on every path", 0)
 	r.Rule("padstep", "branches of a list loop agree on stepping over alignment padding", 6)
+	r.Rule("extent", "the size a decoded element reports — by which every list decoder steps to the next element — equals the bytes the element occupies (the C05 rule): a size that is off shifts everything decoded after it", 100)
+	extentRule(w, r, "extent")
 	r.Rule("liststep", "the advance over a list element is computed from that element, not from a value remembered from an earlier iteration", 6)
 	r.Rule("oxm-varlen", "variable-length OXM payloads are decoded with oxm_length (no mask) or half of it (mask)", 2)
 	r.Rule("fresh", "a value decoded into inside a list loop is new in each iteration (or fully overwritten by the child decoder)", 6)
